@@ -425,6 +425,7 @@ type caseCtx struct {
 	quick    bool
 	readers  bool
 	fullSelf bool
+	followOp string // fault cases: a fault-free operation run after the failed one, before the restart
 }
 
 func (c *caseCtx) genValue(f fieldDef) string {
